@@ -1,6 +1,6 @@
 /-
 WCore statement layer, fragment F1-scalar: assignment and op-assignment to a scalar
-variable with a pure right-hand side.  Mirror of `bcheckAssignment` /
+variable or to an array element `a[i]`, with a pure right-hand side.  Mirror of `bcheckAssignment` /
 `bcheckAssignment1` (lang/check/bounds.go) and of `appendFact`,
 `dropAnyFactsMentioning`, `facts.update`, `simplify` (lang/check/assert.go) — the
 REPAIRED rules (fixes/C01-fact-from-self-referential-assign.patch,
@@ -84,11 +84,19 @@ def isVar : Expr → Bool
   | .var _ _ => true
   | _ => false
 
-/-- `bcheckAssignment` for a scalar variable on the left and a pure expression of the
-fragment on the right -/
+/-- the assignable expressions of this layer: a variable or an array element -/
+def isLhs : Expr → Bool
+  | .var _ _ => true
+  | .index _ _ _ _ => true
+  | _ => false
+
+/-- `bcheckAssignment` for a scalar variable or an array element on the left and a
+pure expression of the fragment on the right.  For an element `a[i]` the rule is the
+one of the code: only the facts that `Mention` the very expression `a[i]` are dropped
+(facts about `a[j]` survive: the index-aliasing finding, see `Props.C01`). -/
 def checkStmt (fs : List Expr) : Stmt → Option (List Expr)
   | .assign lhs rhs =>
-    if !isVar lhs then none else
+    if !isLhs lhs then none else
     match bcheck fs false lhs, bcheck fs false rhs with
     | some _, some rb =>
       if !fitsType (typeOf lhs) rb then none else
@@ -100,7 +108,7 @@ def checkStmt (fs : List Expr) : Stmt → Option (List Expr)
       | _ => boundFacts fs2 lhs rb
     | _, _ => none
   | .opAssign op lhs rhs =>
-    if !isVar lhs then none else
+    if !isLhs lhs then none else
     match bcheck fs false lhs, bcheck fs false rhs with
     | some lb, some rb =>
       match binBounds fs op lhs lb rhs rb with
@@ -122,20 +130,30 @@ def stmtTarget : Stmt → Expr
   | .assign lhs _ => lhs
   | .opAssign _ lhs _ => lhs
 
+def updKey (env : Env) (key : Key) (v : Int) : Env := fun m => if m = key then v else env m
+
+/-- the location an assignable expression denotes in `env` -/
+def lhsKey (env : Env) : Expr → Option Key
+  | .var n _ => some (.sc n)
+  | .index a _ _ i => some (.cell a (evalI env i))
+  | _ => none
+
 def updEnv (env : Env) (x : Expr) (v : Int) : Env :=
-  match x with
-  | .var n _ => fun m => if m = n then v else env m
-  | _ => env
+  match lhsKey env x with
+  | some key => updKey env key v
+  | none => env
 
 def execStmt (env : Env) (s : Stmt) : Env := updEnv env (stmtTarget s) (execValue env s)
 
 /-- the monitors of executing one statement: evaluating the right-hand side trips
-none, the operator's own monitor holds, and the stored value fits the (refined) type
-of the destination -/
+none (nor does the destination: the index monitor of `a[i] = …`), the operator's own
+monitor holds, and the stored value fits the (refined) type of the destination -/
 def stmtSafe (env : Env) : Stmt → Prop
-  | .assign lhs rhs => safe env false rhs ∧ inType (typeOf lhs) (evalI env rhs)
+  | .assign lhs rhs =>
+    safe env false lhs ∧ safe env false rhs ∧ inType (typeOf lhs) (evalI env rhs)
   | .opAssign op lhs rhs =>
-    safe env false rhs ∧ opMonitor op (opBase op lhs rhs) (evalI env lhs) (evalI env rhs) ∧
+    safe env false lhs ∧ safe env false rhs ∧
+      opMonitor op (opBase op lhs rhs) (evalI env lhs) (evalI env rhs) ∧
       inType (typeOf lhs) (evalI env (.binary op lhs rhs))
 
 /-- `bcheckBlock` over a straight-line block of this layer -/
